@@ -518,6 +518,10 @@ async fn run_control_scenario(sc: &Value) -> Result<Value, String> {
     let p = sc["sys_page"].as_u64().ok_or("sys_page")? as usize;
     // empty: 1 = between two pages of rows the server sends a page WITHOUT rows that still announces more pages
     crate::mock::SYS_EMPTY_PAGES.store(sc["empty"].as_u64() == Some(1), std::sync::atomic::Ordering::SeqCst);
+    // "slow": every page of every system-table answer takes 70 ms and the client-side timeout of a metadata request is 500 ms:
+    // no page is too slow, but a table read in many pages takes longer than the timeout in total
+    let slow = sc["slow"].as_u64() == Some(1);
+    crate::mock::SYS_DELAY_MS.store(if slow { 70 } else { 0 }, std::sync::atomic::Ordering::SeqCst);
     if !(1..=200).contains(&n) {
         return Err(format!("nodes {n}"));
     }
@@ -563,7 +567,13 @@ async fn run_control_scenario(sc: &Value) -> Result<Value, String> {
     }
     let build_task = tokio::spawn({
         let cp = mock.contact_point(0);
-        async move { SessionBuilder::new().known_node(cp).pool_size(PoolSize::PerHost(std::num::NonZeroUsize::new(1).unwrap())).disallow_shard_aware_port(true).build().await }
+        async move {
+            let mut sb = SessionBuilder::new().known_node(cp).pool_size(PoolSize::PerHost(std::num::NonZeroUsize::new(1).unwrap())).disallow_shard_aware_port(true);
+            if slow {
+                sb = sb.metadata_request_clientside_timeout(Duration::from_millis(500));
+            }
+            sb.build().await
+        }
     });
     let build_abort = build_task.abort_handle();
     let built = tokio::time::timeout(Duration::from_secs(10), build_task).await;
